@@ -183,6 +183,36 @@ def gen_doc(rng: random.Random, *, resolutions: list[int] | None = None, max_tra
     return doc
 
 
+def add_far_events(rng: random.Random, doc: dict[str, Any]) -> None:
+    """Ticks of eight digits (the widest the properties speak of): an event, a lyric, a note and
+    a star-power phrase hours into the song."""
+    far = rng.choice([10_000_000, 12_345_678, 99_999_000])
+    doc["events"].append([far + 1, rng.choice(["lyric", "section", "text"]), "far"])
+    doc["events"].sort(key=lambda e: e[0])
+    for tr in doc["tracks"][:2]:
+        last = max([gr["tick"] for gr in tr[1]] + [0])
+        t = max(far, last + 1) + rng.randint(0, 99)
+        tr[1].append({"tick": t, "lanes": [rng.randrange(5)], "sus": rng.choice([0, 0, 100]),
+                      "tap": False, "forced": False})
+        if rng.random() < 0.5:
+            sp_last = max([a + b for a, b in tr[2]] + [0])
+            tr[2].append([max(far - 10, sp_last + 1), 500])
+
+
+def add_many_notes(rng: random.Random, doc: dict[str, Any], n: int) -> None:
+    """A track of ``n`` more notes at distinct ticks (sizes and depths that small charts never
+    reach)."""
+    if not doc["tracks"]:
+        return
+    tr = doc["tracks"][0]
+    t = max([gr["tick"] for gr in tr[1]] + [0])
+    res = doc["resolution"]
+    for _ in range(n):
+        t += rng.choice([1, res // 4 + 1, res])
+        tr[1].append({"tick": t, "lanes": sorted(rng.sample(range(5), rng.choice([1, 1, 2, 3]))),
+                      "sus": rng.choice([0, 0, 0, res]), "tap": False, "forced": rng.random() < 0.1})
+
+
 def gen_track(rng: random.Random, header: str, j: int, res: int, thr_pool: list[int],
               horizon: int, *, small: bool = False) -> list[Any]:
     """One instrument section.  Ticks are offset by the section index so that every section
